@@ -837,6 +837,8 @@ class Engine:
             st.pc.append(self.clause_bool(inv, st, self.entry, genv))
         if self.branch(gi < n, lab + "c"):
             elem = it["elem"](gi)
+            if it["kind"] in ("bytes", "seq"):
+                st.pc.append(z3.And(0 <= elem.t, elem.t <= 255))
             self.assign(s.target, elem)
             self._loop_ghost_env = genv
             try:
@@ -1329,7 +1331,10 @@ class Engine:
             if not self.spec_mode:
                 if not self.branch(z3.And(-ln <= i, i < ln), "idx"):
                     raise PyRaise("IndexError")
-            return mk_int(base.t[z3.If(i < 0, ln + i, i)])
+            el = base.t[z3.If(i < 0, ln + i, i)]
+            if not self.spec_mode:
+                self.assume(z3.And(0 <= el, el <= 255))
+            return mk_int(el)
         if base.k == "ilist":
             a, nn, _ = base.t
             i = self.as_int(idx)
